@@ -25,6 +25,7 @@ KeysEv == TraceLog[2]
 TH     == KeysEv.H
 THigh  == KeysEv.HIGH
 TCap   == KeysEv.H - 1
+TLow   == KeysEv.LOW
 TKeys  == 1..KeysEv.n
 TVals  == {}
 
@@ -73,6 +74,10 @@ TThaw ==
        /\ \/ UNCHANGED <<live, val, lru>> /\ dead' = dead
           \/ ev.ctr[1] < Cardinality(live) /\ lruExact /\ AEvictTo(ev.ctr[1])
           \/ ev.ctr[1] = Cardinality(live) /\ dead' # dead /\ AEvictTo(ev.ctr[1])    \* only tombstones changed
+       \* the water-mark rule on the logged counters of the pre-state (as in GlyphTrace.tla)
+       /\ IF freeze = 1 /\ Occupied > HIGH
+          THEN Len(lru') = IF dead > HIGH THEN 0 ELSE IF Len(lru) < TLow THEN Len(lru) ELSE TLow
+          ELSE lru' = lru /\ dead' = dead
        /\ Counters(ev)
        /\ IF ev.ctr[1] < Cardinality(live)
           THEN PrintT(<<"VF:evicted", Cardinality(live), ev.ctr[1]>>) ELSE TRUE
@@ -122,6 +127,7 @@ TUse ==
              /\ ev.ks[i] \in live
              /\ ev.got[i].ro = val[ev.ks[i]].o
              /\ (ev.mode = 0) => ev.got[i].pix = val[ev.ks[i]].pix
+             /\ (ev.mode \in {2, 3}) => \A j \in DOMAIN ev.got[i].pix : ev.got[i].pix[j] = <<0, 0>>
        /\ lru' = UseAll(lru, ev.ks)                   \* AUse of each, in list order
        /\ ret' = Found(val[ev.ks[Len(ev.ks)]])
        /\ dead' = ev.ctr[2] /\ dead' = dead
@@ -199,7 +205,9 @@ TUseB ==
        IN  /\ ev.nmissing = 0
            /\ TRUE = \A i \in 1..ev.n : ks[i] \in live
            /\ TRUE = \A i \in 1..ev.n : /\ Enc(val[ks[i]].o) = ev.o[i]
-                                        /\ (i % 2 = 1) => val[ks[i]].pix = <<ev.pix[i]>>   \* odd positions: no_mask route
+                                        \* drawing mode = (i - 1) % 4: 0 no_mask, 1 mask, 2 outside, 3 clipped away
+                                        /\ (i % 4 = 1) => val[ks[i]].pix = <<ev.pix[i]>>
+                                        /\ (i % 4 \in {3, 0}) => ev.pix[i] = <<0, 0>>
            /\ lru' = Rev(ks) \o SelectSeq(lru, LAMBDA x : ~InBatch(ev, x))
            /\ dead' = ev.ctr[2] /\ dead' = dead
            /\ ret' = Void
